@@ -12,10 +12,11 @@ import random
 from props.common import Family, swarm_knobs, ntx_list
 from props.reorg import ReorgDriver, ReorgFamily
 from props.notif import NotifOracle
-from sim.chaingen import (RefIndex, SCRIPTS, ALL_HASHX, hashx, scripthash_hex, hex_hash, dsha,
+from sim.chaingen import (P2PKH_EXTRA, RefIndex, SCRIPTS, ALL_HASHX, hashx, scripthash_hex, hex_hash, dsha,
                           merkle_root, merkle_fold, unspendable, Tx)
 
 SH = [scripthash_hex(s) for s in SCRIPTS]
+SH_ALL = SH + [scripthash_hex(s) for s in P2PKH_EXTRA]
 # scripts compared in mempool views: the unspendable forms are left out (the property does not say
 # whether an unconfirmed output that will never be indexed counts)
 MP_SCRIPTS = [i for i, s in enumerate(SCRIPTS) if s[:1] != b'\x6a' and s[:2] != b'\x00\x6a']
@@ -339,7 +340,7 @@ class ClientDriver(ReorgDriver):
         def go():
             c = self.client(op['c'])
             if self.ensure_connected(c):
-                c.send('blockchain.scripthash.subscribe', [SH[op['s'] % len(SH)]])
+                c.send('blockchain.scripthash.subscribe', [SH_ALL[op['s'] % len(SH_ALL)]])
         self._when(op, go)
 
     def op_c_unsub(self, op):
@@ -361,13 +362,13 @@ class ClientDriver(ReorgDriver):
         m = op['m']
         d = self.w.daemon
         if m in ('get_history', 'get_balance', 'listunspent', 'get_mempool'):
-            c.send('blockchain.scripthash.' + m, [SH[op['s'] % len(SH)]])
+            c.send('blockchain.scripthash.' + m, [SH_ALL[op['s'] % len(SH_ALL)]])
         elif m == 'id_from_pos':
-            h = op['h'] % (d.height + 3)
+            h = max(0, d.height - op['back']) if 'back' in op else op['h'] % (d.height + 3)
             c.send('blockchain.transaction.id_from_pos', [h, op.get('pos', 0), bool(op.get('merkle'))])
         elif m == 'get_merkle':
             chain = d.chain()
-            h = op['h'] % len(chain)
+            h = max(0, d.height - op['back']) if 'back' in op else op['h'] % len(chain)
             txs = chain[h].txs
             t = txs[op.get('pos', 0) % len(txs)]
             c.send('blockchain.transaction.get_merkle', [hex_hash(t.hash), h])
@@ -407,6 +408,25 @@ class ClientDriver(ReorgDriver):
                 txid = list(mp)[op.get('k', 0) % len(mp)]
                 self.w.daemon.evict(txid)
                 self.probe('mp.evicted')
+        self._when(op, go)
+
+    def op_mp_flicker(self, op):
+        """A mempool tx is evicted and the very same tx re-accepted a moment later (re-broadcast)."""
+        def go():
+            d = self.w.daemon
+            mp = d.mempool
+            if not mp:
+                return
+            txid = list(mp)[op.get('k', 0) % len(mp)]
+            gone = [t for t in mp.values()]
+            d.evict(txid)
+            gone = [t for t in gone if t.hash not in d.mempool]
+            self.probe('mp.flicker')
+
+            def back():
+                for t in gone:
+                    d.add_mempool_tx(t)
+            self._bg(op.get('gap', 0.5), back)
         self._when(op, go)
 
     def op_c_broadcast(self, op):
@@ -706,6 +726,8 @@ class SubsFamily(ReorgFamily):
             k['chunk_size'] = 64
         k['daemon_latency'] = rng.choice([(0.0005, 0.05), (0.0, 0.001), (0.01, 1.0), (0.0005, 6.0),
                                           (0.5, 9.0)])
+        if rng.random() < 0.35:
+            k['gen_weights'] = dict(wide_pool=True)     # little script overlap between transactions
         plan = [dict(op='mine', n=n0, ntx=ntx_list(rng, n0), seed=rng.getrandbits(32), keep=True),
                 dict(op='start', keep=True),
                 dict(op='poker', period=rng.choice([(0.05, 2.0), (0.5, 10.0), (2.0, 30.0)]),
@@ -713,14 +735,20 @@ class SubsFamily(ReorgFamily):
                 dict(op='settle', keep=True)]
         return k, plan
 
-    def client_ops(self, rng, nclients, at_max):
+    def pick_s(self, rng, k):
+        if (k.get('gen_weights') or {}).get('wide_pool') and rng.random() < 0.7:
+            return rng.randrange(len(SH), len(SH_ALL))
+        return rng.randrange(8)
+
+    def client_ops(self, rng, nclients, at_max, k=None):
         ops = []
+        k = k or {}
         for _ in range(rng.randint(1, 5)):
             c = rng.randrange(nclients)
             at = round(rng.uniform(0, at_max), 3) if rng.random() < 0.7 else 0
             r = rng.random()
             if r < 0.5:
-                ops.append(dict(op='c_sub', c=c, s=rng.randrange(8), at=at))
+                ops.append(dict(op='c_sub', c=c, s=self.pick_s(rng, k), at=at))
             elif r < 0.65:
                 ops.append(dict(op='c_hsub', c=c, at=at))
             elif r < 0.75:
@@ -732,7 +760,7 @@ class SubsFamily(ReorgFamily):
             else:
                 ops.append(dict(op='c_query', c=c, m=rng.choice(['get_history', 'get_balance',
                                                                   'listunspent', 'get_mempool']),
-                                s=rng.randrange(8), at=at))
+                                s=self.pick_s(rng, k), at=at))
         return ops
 
     def chain_ops(self, rng, k, at_max):
@@ -749,9 +777,11 @@ class SubsFamily(ReorgFamily):
                                 remine=rng.choice([0.0, 0.5, 1.0]), at=at, seed=rng.getrandbits(32)))
             elif r < 0.62:
                 ops.append(dict(op='admin_reorg', n=rng.choice([1, 2]), at=at))
-            elif r < 0.9:
+            elif r < 0.88:
                 ops.append(dict(op='mp_add', n=rng.randint(1, 4), chain=rng.choice([0.0, 0.5, 0.9]),
                                 at=at, seed=rng.getrandbits(32)))
+            elif r < 0.94:
+                ops.append(dict(op='mp_flicker', k=rng.randrange(8), at=at, gap=round(rng.uniform(0.0, 3.0), 3)))
             else:
                 ops.append(dict(op='mp_evict', k=rng.randrange(8), at=at))
         return ops
@@ -762,10 +792,10 @@ class SubsFamily(ReorgFamily):
         for c in range(nclients):
             plan.append(dict(op='c_hsub', c=c) if rng.random() < 0.6 else dict(op='c_connect', c=c))
             for _ in range(rng.randint(1, 4)):
-                plan.append(dict(op='c_sub', c=c, s=rng.randrange(8)))
+                plan.append(dict(op='c_sub', c=c, s=self.pick_s(rng, k)))
         for _ in range(rng.randint(1, 3)):
             at_max = rng.choice([2.0, 8.0, 20.0])
-            ops = self.chain_ops(rng, k, at_max) + self.client_ops(rng, nclients, at_max)
+            ops = self.chain_ops(rng, k, at_max) + self.client_ops(rng, nclients, at_max, k)
             rng.shuffle(ops)
             plan.extend(ops)
             plan.append(dict(op='settle'))
@@ -789,8 +819,11 @@ class MempoolFamily(SubsFamily):
                 if r < 0.5:
                     plan.append(dict(op='mp_add', n=rng.choice([1, 2, 3, 6, 12, 30]),
                                      chain=rng.choice([0.0, 0.5, 0.95]), at=at, seed=rng.getrandbits(32)))
-                elif r < 0.65:
+                elif r < 0.6:
                     plan.append(dict(op='mp_evict', k=rng.randrange(30), at=at))
+                elif r < 0.7:
+                    plan.append(dict(op='mp_flicker', k=rng.randrange(30), at=at,
+                                     gap=round(rng.uniform(0.0, 3.0), 3)))
                 elif r < 0.9:
                     n = rng.randint(1, 2)
                     plan.append(dict(op='mine', n=n, ntx=ntx_list(rng, n), at=at, seed=rng.getrandbits(32),
@@ -812,6 +845,7 @@ class StaleFamily(SubsFamily):
 
     def gen(self, rng, tier, prop):
         k, plan = self.base(rng, tier)
+        k['stall_p'] = rng.choice([0.0, 0.01, 0.05, 0.2])     # reads parked across a reorg
         nclients = rng.randint(1, 2)
         for c in range(nclients):
             plan.append(dict(op='c_connect', c=c))
@@ -823,9 +857,12 @@ class StaleFamily(SubsFamily):
                 at = round(rng.uniform(0, at_max + 3), 3)
                 m = rng.choice(['get_history', 'get_history', 'listunspent', 'get_balance', 'id_from_pos',
                                 'id_from_pos', 'get_merkle', 'header'])
-                ops.append(dict(op='c_query', c=rng.randrange(nclients), m=m, s=rng.randrange(13),
-                                h=rng.randrange(1000), pos=rng.randrange(4), merkle=rng.random() < 0.5,
-                                cp=rng.choice([0, 0, rng.randrange(1, 1000)]), at=at))
+                q = dict(op='c_query', c=rng.randrange(nclients), m=m, s=rng.randrange(13),
+                         h=rng.randrange(1000), pos=rng.randrange(4), merkle=rng.random() < 0.5,
+                         cp=rng.choice([0, 0, rng.randrange(1, 1000)]), at=at)
+                if rng.random() < 0.6:
+                    q['back'] = rng.choice([0, 0, 1, 2, 3])     # the heights a reorg replaces
+                ops.append(q)
             rng.shuffle(ops)
             plan.extend(ops)
             plan.append(dict(op='settle'))
